@@ -4,6 +4,7 @@ import (
 	"encoding/hex"
 	"fmt"
 	"math"
+	"math/big"
 	"os"
 	"runtime/debug"
 	"sort"
@@ -144,6 +145,7 @@ type RunStats struct {
 	Nontrivial bool           `json:"nontrivial"`
 	Halt       string         `json:"halt,omitempty"`
 	Foreign    string         `json:"foreign,omitempty"`
+	OutOfModel string         `json:"out_of_model,omitempty"`
 	OtherProps map[string]int `json:"other_props,omitempty"`
 }
 
@@ -629,6 +631,25 @@ func (r *Runner) runBlock(b *Block, shadow bool) {
 	if r.failed() {
 		return
 	}
+	// ---- consensus stub: CometBFT refuses a validator set whose total voting power exceeds MaxInt64/8 (it panics
+	// when the update is applied, and x/distribution's int64 sum overflows before that). A reward weight accepted by
+	// governance can mint that much stake (weight 10^18 x native stake); no listed property speaks about it, the
+	// run simply cannot continue in any real deployment. It ends here and is counted.
+	{
+		total := new(big.Int)
+		for _, lv := range w.lastValidatorSet(r.RootCtx) {
+			total.Add(total, big.NewInt(lv.power))
+		}
+		if total.Cmp(big.NewInt(math.MaxInt64/8)) > 0 {
+			r.Probe("run_ended_total_voting_power_above_cometbft_limit")
+			r.Halted = true
+			r.Stats.OutOfModel = fmt.Sprintf("total voting power %s exceeds CometBFT's MaxTotalVotingPower", total)
+			if !shadow {
+				w.App.CommitMultiStore().Commit()
+			}
+			return
+		}
+	}
 
 	// ---- commit (or, in shadow mode, only remember the working hash)
 	if shadow {
@@ -710,6 +731,12 @@ func (r *Runner) halt(hi *haltInfo) {
 	if hi.foreign {
 		r.Stats.Foreign = msg
 		r.tracef("  FOREIGN HALT %s\n%s", msg, hi.stack)
+		if r.haltPre != nil {
+			for _, v := range r.haltPre.StValOrder {
+				sv := r.haltPre.StVals[v]
+				r.tracef("    validator %s status=%s jailed=%v tokens=%s shares=%s commission=%s", short(v), sv.Status, sv.Jailed, sv.Tokens, sv.DelegatorShares, sv.Commission.Rate)
+			}
+		}
 		return
 	}
 	r.Stats.Halt = msg
